@@ -94,9 +94,11 @@ class Fact:
 class Alt:
     env: dict[str, ast.expr] = field(default_factory=dict)
     facts: dict[str, Fact] = field(default_factory=dict)
+    # parameters whose bare Name (inside env values and facts) still denotes the value at function entry
+    initial: set[str] = field(default_factory=set)
 
     def copy(self) -> "Alt":
-        return Alt(dict(self.env), dict(self.facts))
+        return Alt(dict(self.env), dict(self.facts), set(self.initial))
 
     def key(self) -> tuple:
         return (tuple(sorted(self.facts)), tuple(sorted((k, ast.dump(v)) for k, v in self.env.items())))
@@ -341,7 +343,14 @@ class Flow:
         # definitions, so that facts about a local copy survive a later store to the field
         _, sp = stored_names(func.node.body)
         self._stored_heap = {x for x in sp if "." in x}
-        init = State([Alt(dict(closure_env or {}), {})])
+        a_ = func.node.args
+        params = {x.arg for x in (*a_.posonlyargs, *a_.args, *a_.kwonlyargs)}
+        loop_stored: set[str] = set()
+        for n in ast.walk(func.node):
+            if isinstance(n, (ast.For, ast.While)):
+                ns, _ = stored_names([*n.body, *( [n.target] if isinstance(n, ast.For) else [n.test])])
+                loop_stored |= ns
+        init = State([Alt(dict(closure_env or {}), {}, params - loop_stored)])
         out = self._block(func.node.body, init)
         self.end_state = out.fall  # state at implicit `return None`, if reachable
 
@@ -647,7 +656,20 @@ class Flow:
 
     def _kill_name(self, st: State, name: str) -> None:
         for a in st.alts:
+            had_env = name in a.env
             a.env.pop(name, None)
+            if name in a.initial:
+                if had_env:
+                    # the bare name keeps denoting the entry value (it was re-defined before): nothing that
+                    # mentions it has to be forgotten, but from now on the name's current value is unknown,
+                    # which the bare name cannot express any more
+                    a.initial.discard(name)
+                    for k in [k for k, f in a.facts.items() if name in f.names()]:
+                        del a.facts[k]
+                    for k in [k for k, v in a.env.items() if name in norm.free_names(v)]:
+                        del a.env[k]
+                    continue
+                a.initial.discard(name)
             # definitions that mention the (old value of the) name stay valid: they were expanded at
             # definition time only if the name had a unique def; if the name was opaque they still
             # mention it and must be forgotten
@@ -684,9 +706,21 @@ class Flow:
                 new.append(None)
             else:
                 ex = self._expand(value, a)
-                new.append(ex if _size(ex) <= MAX_EXPR_NODES and name not in norm.free_names(ex) else None)
-        self._kill_name(st, name)
+                if _size(ex) > MAX_EXPR_NODES:
+                    new.append(None)
+                elif name in norm.free_names(ex):
+                    # `x = f(x)`: fine if the inner x is the parameter's value at entry (SSA-like: the bare
+                    # name keeps denoting the entry value in definitions and facts)
+                    new.append(ex if (name in a.initial and name not in a.env) else None)
+                else:
+                    new.append(ex)
         for a, ex in zip(st.alts, new):
+            if ex is not None and name in a.initial and name not in a.env:
+                # first re-definition of a parameter on this path: the bare name keeps denoting the entry
+                # value, so definitions and facts that mention it stay valid
+                a.env[name] = ex
+                continue
+            self._kill_name(State([a]), name)
             if ex is not None:
                 a.env[name] = ex
 
